@@ -275,6 +275,72 @@ theorem parse_batch_terminates (fuel : Nat) (p : Comb) (hw : p.wf = true) (lvl :
 example : parseBatch 4 (.statement [5] (.tok 3) [8] (.tok 3)) .raise [[5, 3], [8, 1, 1], [3]] 0 = (.ret .truthy, 6) := by
   decide
 
+/-! ## the three shapes of an option loop -/
+
+/-- shapes 1 and 2 — the failure branch consumes the offending token, or breaks after `raise_error` — terminate at EVERY
+    error level, around ANY element method that honours the contract and consumes input whenever it reports success:
+    no divergence, no IndexError, at most (r+1)·(b r + 1) steps -/
+theorem option_loop_terminates (toks : List Tok) (close : Tok) (mode : OnFail) (hm : mode ≠ .relyOnRaise) (b : Nat → Nat)
+    (p : P) (fuel : Nat) (hp : Sound toks.length b p) (hb : BMono b) (hc : Consuming toks.length p)
+    (hf : toks.length < fuel) (s : St) (hs : s.idx ≤ toks.length) :
+    (optionLoop toks close mode p fuel s).1 ≠ .diverged ∧ (optionLoop toks close mode p fuel s).1 ≠ .internal ∧
+      (optionLoop toks close mode p fuel s).2.steps ≤ s.steps + (toks.length - s.idx + 1) * (b (toks.length - s.idx) + 1) := by
+  obtain ⟨_, _, c3, c4, c5⟩ := good_optionLoop (close := close) hp hb hc hm fuel s hs (by omega)
+  exact ⟨c4, c5, c3⟩
+
+example : run [LP, 7, 9, 7, RP, 3] 7 (.both (.tok LP) (.optionLoop RP (.tok 7) .skip)) ⟨0, 0, 0, .warn⟩
+    = (.ret .truthy, ⟨5, 5, 0, .warn⟩) := by decide +kernel
+example : run [LP, 7, 9, 7, RP, 3] 7 (.both (.tok LP) (.optionLoop RP (.tok 7) .breakAfterRaise)) ⟨0, 0, 0, .warn⟩
+    = (.ret .truthy, ⟨2, 2, 1, .warn⟩) := by decide +kernel
+
+/-- shape 3 — `if option is None: self.raise_error(…)` with no `break` (the seeded `_parse_wrapped_options` regression) —
+    never finishes at IGNORE / WARN / RAISE: raise_error only records the error, the cursor stays on the offending token -/
+theorem option_loop_relying_on_raise_diverges (fuel errs : Nat) (lvl : Level) (hl : lvl ≠ .immediate) :
+    (optionLoop [5] RP .relyOnRaise (fun s => (.ret .none, s)) fuel ⟨0, 0, errs, lvl⟩).1 = .diverged := by
+  induction fuel generalizing errs with
+  | zero => rfl
+  | succ fuel ih =>
+    unfold optionLoop
+    simp only [curr, RP, failThen, failS, hl, Val.isTruthy]
+    exact ih (errs + 1)
+
+/-- … and is only saved by IMMEDIATE, where raise_error raises -/
+theorem option_loop_relying_on_raise_immediate (fuel errs : Nat) :
+    (optionLoop [5] RP .relyOnRaise (fun s => (.ret .none, s)) (fuel + 1) ⟨0, 0, errs, .immediate⟩).1 = .raised := by
+  unfold optionLoop
+  simp [curr, RP, failThen, failS, Val.isTruthy]
+
+/-- every `while` loop of sqlglot/parser.py and sqlglot/parsers/*.py, classified by ast on this run: none continues after
+    a `raise_error` without having consumed a token ("relies-on-raise"), except the audited chunk loop of
+    `_parse_batch_statements` (its continuation test is `self._chunk_index < chunks_length` and `_advance_chunk` increments
+    `_chunk_index` on every iteration).  The other classes are: progress on every continuing path, break / return after
+    raise_error, or result-driven (no raise_error; covered by the run-time Consuming monitor and the step budget). -/
+theorem parser_loops_progress_or_break :
+    (SqlglotModel.Generated.C05.parserLoops.filter (fun l => l.2.2 == "relies-on-raise")).map (·.1)
+        = ["parser._parse_batch_statements"] ∧
+      SqlglotModel.Generated.C05.parserLoops.all
+        (fun l => l.2.2 == "progress" || l.2.2 == "break-after-raise" || l.2.2 == "result-driven" || l.2.2 == "relies-on-raise")
+        = true := by
+  decide +kernel
+
+/-- the generator side: the only places where a generator method reaches WITHOUT a guard into an arg that the node class
+    declares OPTIONAL (`expression.args["x"]`, `expression.this.<attr>` chains) are the audited ones below (ast + live
+    arg_types on this run; a new one breaks the build).  Unguarded reaches into REQUIRED args (listed in
+    `generatorUnguardedRequired`) are what makes generation from an incomplete tree (IGNORE / WARN) leak — the recorded
+    class-level finding; they are exercised by the incomplete-tree stage of the search and tallied by crash-site family. -/
+theorem generator_unguarded_optional_accesses_known :
+    SqlglotModel.Generated.C05.generatorUnguardedOptional =
+      [("generator.Generator.drop_sql", "expression.args['kind']"),
+       ("generator.Generator.interval_sql", "expression.this.is_string"),
+       ("generator.Generator.lateral_sql", "expression.args['alias']"),
+       ("generator.Generator.pivotalias_sql", "expression.args['alias']"),
+       ("generator.Generator.tsordstodate_sql", "expression.args['format']"),
+       ("generator.Generator.tsordstotime_sql", "expression.args['format']"),
+       ("postgres.PostgresGenerator.interval_sql", "expression.args['unit']"),
+       ("tsql.TSQLGenerator.drop_sql", "expression.args['kind']"),
+       ("tsql._format_sql", "expression.args['format']")] := by
+  decide +kernel
+
 /-! ## manual lookaheads -/
 
 /-- a manual lookahead `self._tokens[self._index + k]` behind the strict guard `self._index + k < size` never raises
